@@ -959,3 +959,29 @@ impl<B: Buf> fmt::Debug for Prioritized<B> {
             .finish()
     }
 }
+
+#[cfg(feature = "verif-hooks")]
+impl Prioritize {
+    /// Read-only dump (verification hook).
+    pub(super) fn verif_dump(
+        &self,
+        store: &Store,
+        out: &mut Vec<(&'static str, i64)>,
+        queues: &mut Vec<(&'static str, Vec<u32>)>,
+    ) {
+        out.push(("send_flow_window", isize::from(self.flow.window_size_raw()) as i64));
+        out.push(("send_flow_available", isize::from(self.flow.available()) as i64));
+        out.push(("max_buffer_size", self.max_buffer_size as i64));
+        out.push((
+            "in_flight_data_frame",
+            match self.in_flight_data_frame {
+                InFlightData::Nothing => 0,
+                InFlightData::DataFrame(_) => 1,
+                InFlightData::Drop => 2,
+            },
+        ));
+        queues.push(("pending_send", self.pending_send.verif_ids(store)));
+        queues.push(("pending_capacity", self.pending_capacity.verif_ids(store)));
+        queues.push(("pending_open", self.pending_open.verif_ids(store)));
+    }
+}
